@@ -247,6 +247,10 @@ def run(ctx):
                     # setting never hides a new dependence on another
                     for t, how in sorted(why.items()):
                         ctx.ob("R-RNG", "C14.4", f, f"randomness consumed by `{src(e)[:50]}` does not depend on the parallelisation setting `{t}`", False, f"{consumer}: {how}", node=e)
+    # enabling a pool (or parallel prior evaluation) must not change *what* is evaluated
+    from .C10 import wrapper_table
+
+    wrapper_table(ctx, "C14.4")
     ctx.ob("R-RNG", "C14.4", "nessai", "taint / control-dependence analysis ran over every RNG-consuming call and property read", True, f"{n_checked} consuming sites checked against tainted attributes {sorted(tainted)}")
     ctx.require(n_checked >= 60, f"only {n_checked} RNG-consuming sites found")
     ctx.assumptions += ["the user's likelihood and prior are deterministic and consume no randomness (premise of the property)", "torch/glasflow distribution sampling draws from torch's global generator", "bit identity itself, fork/pool behaviour and BLAS/torch thread non-determinism are not decided"]
@@ -328,6 +332,7 @@ CLAIM = {
 _M = "nessai/model.py"
 _B = "nessai/samplers/base.py"
 MUTANTS = [
+    {"id": "pool-evaluates-other-prior", "file": _M, "old": "            func_wrapper=log_prior_unit_hypercube_wrapper,\n", "new": "            func_wrapper=log_prior_wrapper,\n", "expect": "with its own wrapper"},
     {"id": "probe-skipped-for-chunksize-one", "file": _M, "old": "            self.allow_vectorised and self.vectorised_likelihood,\n            chunksize=self.likelihood_chunksize,", "new": "            self.allow_vectorised and self.likelihood_chunksize != 1 and self.vectorised_likelihood,\n            chunksize=self.likelihood_chunksize,", "expect": "parallelisation setting `likelihood_chunksize`"},
     {"id": "private-generator", "file": "nessai/utils/sampling.py", "old": "import numpy as np\n", "new": "import numpy as np\n_RNG = np.random.default_rng()\n", "expect": "at import time"},
     {"id": "default-rng-in-function", "file": _M, "old": "        logP = -np.inf\n        while logP == -np.inf:\n            p = parameters_to_live_point(\n                np.random.uniform(", "new": "        logP = -np.inf\n        while logP == -np.inf:\n            p = parameters_to_live_point(\n                np.random.default_rng().uniform(", "expect": "global generators"},
